@@ -36,6 +36,9 @@ def run(ctx):
     ctx.step(share, ctx)
     ctx.step(common.handle_rules, ctx, "C02.handle", "gmlc::libguarded::shared_lock_handle", "shared")
     ctx.step(const_pointer, ctx)
+    # every shared acquisition has exactly one owner (an RAII lock object): a second owner made by hand releases the
+    # reader side while the first holder still reads
+    ctx.step(common.raii_only, ctx, "C02.raii", ["handles.hpp", "shared_guarded.hpp", "shared_guarded_opt.hpp", "ordered_guarded.hpp"], floor=20)
     # a shared handle is non-null exactly when it owns the lock (a try form that fails must not hand out the pointer)
     ctx.step(common.acquisition_summaries, ctx, "C02.summary", CLASSES, opt_classes=("gmlc::libguarded::shared_guarded_opt",))
     ctx.step(common.helper_summaries, ctx, "C02.helpers", ["try_lock_shared_handle", "try_lock_shared_handle_for",
